@@ -300,8 +300,9 @@ def uri_variants(rng, _n, vps: dict | None = None) -> str:
 class TreeHistory:
     """edit history on one persistent lxml tree; after every edit `update_namespaces` runs on the very same ModelFile"""
 
-    def __init__(self, ctx, out, cases: list, etree, core, hid):
+    def __init__(self, ctx, out, cases: list, etree, core, hid, focus: str | None = None):
         self.ctx, self.out, self.cases, self.etree, self.core, self.hid = ctx, out, cases, etree, core, hid
+        self.focus = focus  # an edit kind that is chosen half of the time (C02: "placeholder")
         self._n = plugin_pool()
         rng = ctx.rng
         d = {"pre": [], "root": c01.synth(rng), "post": []}
@@ -331,6 +332,8 @@ class TreeHistory:
         op = rng.choice(["add"] * 9 + ["remove-prefix"] * 7 + ["remove-one"] * 3 + ["xmi-type"] * 3 + ["empty-type"] * 3 + ["ns-tag"] * 3
                         + ["vps"] * 4 + ["comment"] * 4 + ["root-text"] * 3 + ["unused-decl"] * 3 + ["nothing"] * 2
                         + ["child-decl", "foreign-attr", "shadow"] + ["placeholder"] * 6)
+        if self.focus is not None and rng.random() < 0.5:
+            op = self.focus
         if op == "add":
             p = rand_type_prefix(rng, self._n, root)
             parent = rng.choice(self.elems())
@@ -456,11 +459,11 @@ class TreeHistory:
                            ("ns.history", {"history": self.hid, "step": self.step_no, "edit": op, "vps": dict(self.vps), "doc": before}, iv)))
 
 
-def gen_tree_histories(ctx, out, cases: list) -> None:
+def gen_tree_histories(ctx, out, cases: list, n: int | None = None, focus: str | None = None) -> None:
     etree, exs, core = c01.impl()
     logging.getLogger("capellambse").setLevel(logging.CRITICAL)
-    for hid in range(ctx.pick(120, 900)):
-        h = TreeHistory(ctx, out, cases, etree, core, hid)
+    for hid in range(ctx.pick(120, 900) if n is None else n):
+        h = TreeHistory(ctx, out, cases, etree, core, hid if focus is None else f"{focus}-{hid}", focus)
         for _ in range(ctx.rng.randint(3, 9)):
             h.step()
 
